@@ -1,6 +1,6 @@
 (* C20/Driver.v — entry point for the correspondence run: the model's prediction of what an
    observer of the process sees (exit status, content of every sink, diagnostics). *)
-From RM Require Import C20.Model C20.Sinks C20.Wiring C20.ClapSpec C20.Clap.
+From RM Require Import C20.Model C20.Sinks C20.Wiring C20.ClapSpec C20.Clap C20.Known.
 From RM Require Gen.C20Cli Gen.C20Wiring.
 Open Scope Z_scope.
 
@@ -76,6 +76,8 @@ Record observation := {
   o_stderr_diag : bool;    (* a diagnostic must be visible on standard error *)
   o_log_diag : bool;       (* a diagnostic must be visible in the log file *)
   o_recover : bool;        (* recover_function_args handed to the processor (false when no plan) *)
+  o_known_b : bool;        (* the run is in the exact class of F-C20b (C20/Known.v, C20/Findings.v) *)
+  o_known_d : bool;        (* ... of F-C20d *)
   o_diag_kind : Z          (* the one diagnostic of the run: 0 none | 1 main's own rejection (error!) | 2 "Error reading dump" |
                               3 "Error processing dump" | 4 main's "Error: <io error>" | 5 clap's usage error *)
 }.
@@ -98,6 +100,8 @@ Definition observe (f : flags) (e : env) (pre : path -> bool) : observation :=
      o_stderr_diag := has_diag tr Stderr || (has_diag tr Logger && logger_visible && negb (is_some (f_log_file f)));
      o_log_diag := has_diag tr Logger && logger_visible && is_some (f_log_file f) && created tr P_LOG;
      o_recover := match decide f with Plan p => po_recover (p_opts p) | _ => false end;
+     o_known_b := known_b f e;
+     o_known_d := known_d f e;
      o_diag_kind := diag_kind f e |}.
 
 Definition mk_feature (z : Z) : feature :=
@@ -157,6 +161,8 @@ Definition observe_cli (o : cli_outcome) (e : env) (pre : path -> bool) : observ
        o_stderr_diag := negb (to_stdout tr);
        o_log_diag := false;
        o_recover := false;
+       o_known_b := false;
+       o_known_d := false;
        o_diag_kind := if to_stdout tr then 0 else if code =? 2 then 5 else 0 |} in
   match o with
   | CliFlags f => observe f e pre
